@@ -198,6 +198,87 @@ def run(tier, seed):
             if (got - {0, 240}) != (c['want'] - {0, 240}):
                 oracle.append(('intercepted set differs: extra %s missing %s' % (sorted(got - c['want'])[:8], sorted(c['want'] - got)[:8]),
                                kvlib.case_text(c, it)))
+        # ---- the reserved no-op codes never reach the OS, whatever output path they take: plain / multi / output chord / macro /
+        # tap-hold / one-shot / unmod / fork / key repeat, and as members of sequences in every input mode (completed, cancelled by a
+        # key that fits no sequence, timed out - hidden-delay-type types the buffered keys out when the sequence fails)
+        ncases = []
+        nop_acts = ['nop1', '(multi nop2 x)', 'S-nop3', '(macro nop3 y nop4)', '(tap-hold 0 20 nop5 nop6)', '(one-shot 50 nop7)', '(unmod nop8)',
+                    '(fork nop9 nop0 (lsft))', '(tap-dance 20 (nop1 nop2))', '(macro S-(nop1 5 nop2))', '(unshift nop4)', '(multi lsft nop5)']
+        for i in range(12 if tier == 'quick' else 200):
+            acts = rng.sample(nop_acts, 4)
+            cfgt = '(defcfg process-unmapped-keys yes)\n(defsrc a s d f)\n(deflayer base %s)' % ' '.join(acts)
+            h = []
+            for k in rng.sample([30, 31, 32, 33], 4):
+                h += ['d%d' % k, 't%d' % rng.choice([3, 30]), 'r%d' % k, 't2', 'u%d' % k, 't%d' % rng.choice([2, 60])]
+            ncases.append({'id': 'nop-act-%d' % i, 'cfg': cfgt, 'hist': h + ['t100']})
+        for i in range(36 if tier == 'quick' else 600):
+            mode = ['hidden-suppressed', 'hidden-delay-type', 'visible-backspaced'][i % 3]
+            T = rng.choice([30, 100])
+            cfgt = ('(defcfg sequence-input-mode %s sequence-timeout %d)\n(defsrc a s d f g)\n(deflayer base sldr nop1 nop2 x (multi nop3 y))\n'
+                    '(defvirtualkeys v0 z)\n(defseq v0 (nop1 nop2) v0 (nop3 x))' % (mode, T))
+            first = rng.choice([31, 31, 34])
+            end = rng.choice(['complete', 'other-key', 'timeout', 'leader-again'])
+            h = ['t3', 'd30', 't2', 'u30', 't2', 'd%d' % first, 't2', 'r%d' % first, 't1', 'u%d' % first, 't2']
+            if end == 'complete':
+                nxt = 32 if first == 31 else 33
+                h += ['d%d' % nxt, 't2', 'u%d' % nxt]
+            elif end == 'other-key':
+                nxt = 33 if first == 31 else 31
+                h += ['d%d' % nxt, 't2', 'u%d' % nxt]
+            elif end == 'timeout':
+                h += ['t%d' % (T + 5)]
+            else:
+                h += ['d30', 't2', 'u30', 't2', 'd31', 't2', 'u31', 't%d' % (T + 5)]
+            ncases.append({'id': 'nop-seq-%d' % i, 'cfg': cfgt, 'hist': h + ['t100']})
+        nres = run_impl('ksim', ncases)
+        for c in ncases:
+            evals += 1
+            it = nres.get(c['id'])
+            if not it or it[0].startswith('PARSE'):
+                if it and it[0].startswith('PARSE'):
+                    oracle.append(('no-op key configuration rejected by the parser (generator drift): %s' % c['id'], kvlib.case_text(c, it)))
+                continue
+            if kvlib.is_crash(it):
+                oracle.append(('no-op key case crashed: ' + c['id'], kvlib.case_text(c, it)))
+                continue
+            nontriv.add(('nop', c['id']))
+            leaked = [e for l in it if l.startswith(('@', 'R@')) for e in l.split(' ')[1:]
+                      if re.fullmatch(r'[du]\d+', e) and imin <= int(e[1:]) <= imax]
+            if leaked:
+                oracle.append(('reserved no-op code sent to the OS: %s (%s)' % (' '.join(leaked[:6]), c['id']), kvlib.case_text(c, it)))
+        # ---- a name bound by deflocalkeys-linux denotes that code wherever it is written (defsrc: intercepted; action: output),
+        # for fresh names, for the overridable default names and for built-in names alike
+        lcases = []
+        plain_codes = [c for c in known if is_plain(vmap[c]) and not (imin <= c <= imax) and c < 600]
+        builtin = [n for n in simple if len(n) <= 4]
+        for i in range(40 if tier == 'quick' else 800):
+            nm = rng.choice([rng.choice(['lkey%d' % rng.randint(1, 99), 'ì', 'new', 'ü', 'k_%d' % i]),
+                             rng.choice(['[', ']', ';', ',', '.', 'yen', '<', '/', "'", '=', '-']), rng.choice(builtin)])
+            code = rng.choice(plain_codes)
+            other = rng.choice([n for n in builtin if n != nm and name2code[n] != code])
+            lcases.append({'id': 'lk-src-%d' % i, 'sub': 'pinfo', 'cfg': '(deflocalkeys-linux %s %d)\n(defsrc %s %s)\n(deflayer base x y)' % (nm, code, nm, other),
+                           'hist': [], 'want': {code, name2code[other]}, 'nm': nm, 'code': code})
+            oc = name2code[other]
+            lcases.append({'id': 'lk-out-%d' % i, 'sub': 'ksim', 'cfg': '(deflocalkeys-linux %s %d)\n(defsrc %s)\n(deflayer base %s)' % (nm, code, other, nm),
+                           'hist': ['d%d' % oc, 't3', 'u%d' % oc, 't3'], 'nm': nm, 'code': code})
+        lres = run_impl('pinfo', [c for c in lcases if c['sub'] == 'pinfo'])
+        lres.update(run_impl('ksim', [c for c in lcases if c['sub'] == 'ksim']))
+        for c in lcases:
+            evals += 1
+            it = lres.get(c['id'])
+            if not it or it[0].startswith(('PARSE', 'REJECTED')):
+                continue
+            nontriv.add(('localkey', c['nm'], c['code'], c['sub']))
+            if c['sub'] == 'pinfo':
+                got = set(int(x) for x in it[0].split()[1:])
+                if got != c['want']:
+                    oracle.append(('deflocalkeys-linux binds %r to %d but defsrc %r intercepts %s' % (c['nm'], c['code'], c['nm'], sorted(got)),
+                                   kvlib.case_text(c, it)))
+            else:
+                evs = [e for l in it if l.startswith('@') for e in l.split(' ')[1:]]
+                if evs != ['d%d' % c['code'], 'u%d' % c['code']]:
+                    oracle.append(('deflocalkeys-linux binds %r to %d but the action %r outputs %s' % (c['nm'], c['code'], c['nm'], evs),
+                                   kvlib.case_text(c, it)))
     # ---- verdict
     violations = 0
     if oracle:
